@@ -430,8 +430,10 @@ impl VersionManager {
             (1, 1)
         };
 
+        verif_point!("vs.r.pre_inc", self as *const Self, version);
         // Increment active reader count
         self.active_readers.fetch_add(1, Ordering::Relaxed);
+        verif_point!("vs.r.acquired", self as *const Self, version);
 
         // Update statistics
         if let Ok(mut stats) = self.stats.lock() {
@@ -467,6 +469,7 @@ impl VersionManager {
 
         // For OneWriteMultiRead, ensure no other writers are active
         if self.concurrency_level == ConcurrencyLevel::OneWriteMultiRead {
+            verif_point!("vs.w.check", self as *const Self);
             let current_writers = self.active_writers.load(Ordering::Acquire);
             if current_writers > 0 {
                 return Err(ZiporaError::resource_busy(
@@ -474,6 +477,7 @@ impl VersionManager {
                 ));
             }
         }
+        verif_point!("vs.w.checked", self as *const Self);
 
         // Acquire version under lock for synchronized levels
         let (version, min_version) = if self.concurrency_level.requires_synchronization() {
@@ -489,8 +493,10 @@ impl VersionManager {
             (1, 1)
         };
 
+        verif_point!("vs.w.pre_inc", self as *const Self, version);
         // Increment active writer count
         self.active_writers.fetch_add(1, Ordering::Relaxed);
+        verif_point!("vs.w.acquired", self as *const Self, version);
 
         // Update statistics
         if let Ok(mut stats) = self.stats.lock() {
@@ -512,6 +518,7 @@ impl VersionManager {
 
     /// Internal method to release a reader token.
     fn release_reader_token(&self, token_version: u64) {
+        verif_point!("vs.r.pre_dec", self as *const Self, token_version);
         self.active_readers.fetch_sub(1, Ordering::Relaxed);
 
         // Update minimum version if this was the head token
@@ -527,6 +534,7 @@ impl VersionManager {
 
     /// Internal method to release a writer token.
     fn release_writer_token(&self, token_version: u64) {
+        verif_point!("vs.w.pre_dec", self as *const Self, token_version);
         self.active_writers.fetch_sub(1, Ordering::Relaxed);
 
         // Update minimum version if this was the head token
@@ -545,10 +553,13 @@ impl VersionManager {
     /// This is a simplified version - in a full implementation, this would
     /// track individual token versions in a linked list.
     fn try_advance_min_version(&self) {
+        verif_point!("vs.adv.check", self as *const Self);
         if self.active_readers.load(Ordering::Relaxed) == 0
             && self.active_writers.load(Ordering::Relaxed) == 0
         {
+            verif_point!("vs.adv.load_cur", self as *const Self);
             let current = self.current_version.load(Ordering::Acquire);
+            verif_point!("vs.adv.store", self as *const Self, current);
             self.min_version.store(current, Ordering::Release);
         }
     }
@@ -648,6 +659,7 @@ impl std::fmt::Debug for TokenReleaseCallback {
 
 impl TokenReleaseCallback {
     fn release(&self, token_version: u64) {
+        verif_point!("vs.cb.release", self.version_manager, token_version);
         unsafe {
             let manager = &*self.version_manager;
             match self.token_type {
